@@ -793,6 +793,33 @@ class RowRef(LRef):
         return f"RowRef({self.parent!r}[{self.index!r}])"
 
 
+class RowItem(LRef):
+    """A row reached by ITERATING over a nested list (`for row in grid[a:b]`): CPython hands out the list object
+    stored in the slot.  The by-value model presents it as a list with that content that must not be changed:
+    any assignment to `.seq` (which is all the list-mutation models and `row_value` do) is rejected, because a
+    change would have to show in the enclosing list (row aliasing is not modelled).  Reading, slicing,
+    concatenating (`row + [...]` builds a new list, as in CPython) are as for any list.
+    Cross-check against CPython: spec/xcheck_cases.py x_generator (iterates over rows of a nested list)."""
+
+    def __init__(self, content):
+        self._content = content
+        self.serial = 0
+
+    @property
+    def seq(self):
+        return self._content
+
+    @seq.setter
+    def seq(self, new):
+        raise Unsupported("a row reached by iterating over a nested list is changed / stored elsewhere (row aliasing is not modelled)")
+
+    def snapshot(self):
+        return LRef(self._content)
+
+    def __repr__(self):
+        return "RowItem(...)"
+
+
 class DRef(Sym):
     """A mutable dict with concrete keys (reference semantics)."""
 
